@@ -10,17 +10,20 @@ Open Scope Z_scope.
 
 (* resources (buffers, images): the creation counter never goes down, and a resource of the state after either has the id
    of a resource of the state before or an id the counter has reached since *)
+Definition res_key (r : VamDev.dres) : Z * Z * resreq := (rs_id r, rs_kind r, rs_req r).
+
 Definition res_keep (m m' : mach) : Prop :=
   m_next_res m <= m_next_res m' /\
-  forall r', In r' (m_res m') -> (exists r, In r (m_res m) /\ rs_id r = rs_id r') \/ rs_id r' <= m_next_res m'.
+  forall r', In r' (m_res m') -> (exists r, In r (m_res m) /\ res_key r = res_key r') \/ (m_next_res m < rs_id r' <= m_next_res m').
 
 Lemma res_keep_refl m : res_keep m m.
 Proof. split; [lia|]. intros r' H. left. eauto. Qed.
 
 Lemma res_keep_trans a b d : res_keep a b -> res_keep b d -> res_keep a d.
 Proof.
-  intros (A1 & A2) (B1 & B2). split; [lia|]. intros r'' H. destruct (B2 r'' H) as [(r' & H' & E')|Hle]; [|right; exact Hle].
-  destruct (A2 r' H') as [(r & Hr & E)|Hle]; [left; exists r; split; [exact Hr|congruence]|right; lia].
+  intros (A1 & A2) (B1 & B2). split; [lia|]. intros r'' H. destruct (B2 r'' H) as [(r' & H' & E')|Hle]; [|right; lia].
+  destruct (A2 r' H') as [(r & Hr & E)|Hle]; [left; exists r; split; [exact Hr|congruence]|right].
+  assert (rs_id r' = rs_id r'') by (unfold res_key in E'; congruence). lia.
 Qed.
 
 Lemma res_keep_eq m m' : m_res m' = m_res m -> m_next_res m' = m_next_res m -> res_keep m m'.
@@ -127,20 +130,24 @@ Proof. apply MS_same; [apply remove_allocation_same|]. unfold remove_allocation.
 Lemma add_allocation_MS m h size : MS m (add_allocation c m h size).
 Proof. apply MS_same; [apply add_allocation_same|]. unfold add_allocation. destruct (Budget.add_alloc _ _ _ _) as ((b' & r) & cs). res_tac. Qed.
 
-Lemma replace_res_in l nr r' : In r' (replace_res l nr) -> exists r, In r l /\ rs_id r = rs_id r'.
+Lemma replace_res_in l nr r' : In r' (replace_res l nr) -> In r' l \/ r' = nr.
 Proof.
   induction l as [|x l IH]; cbn; [tauto|]. destruct (rs_id x =? rs_id nr) eqn:E.
-  - apply Z.eqb_eq in E. intros [<-|H]; [exists x; auto|exists r'; auto].
-  - intros [<-|H]; [exists x; auto|]. destruct (IH H) as (r & Hr & Er). eauto.
+  - intros [<-|H]; auto.
+  - intros [<-|H]; [auto|]. destruct (IH H); auto.
 Qed.
+
+Lemma find_res_in' l id r : find_res l id = Some r -> In r l.
+Proof. induction l as [|x l IH]; cbn; [discriminate|]. destruct (rs_id x =? id); [intros E; injection E as ->; auto|auto]. Qed.
 
 Lemma remove_res_in l id r : In r (remove_res l id) -> In r l.
 Proof. induction l as [|x l IH]; cbn; [tauto|]. destruct (rs_id x =? id); [auto|]. intros [->|H]; auto. Qed.
 
 Lemma dev_bind_MS m image res mem off : MS m (fst (dev_bind m image res mem off)).
 Proof.
-  apply MS_same; [apply dev_bind_same|]. unfold dev_bind. destruct (find_res _ _); [|res_tac]. destruct (find_mem _ _); [|res_tac]. destruct (dev_fault _ _ _) as ((f1 & fi) & code).
-  destruct (negb (code =? 0)); [res_tac|]. cbn. split; [cbn; lia|]. cbn. intros r' H. left. eapply replace_res_in; eauto.
+  apply MS_same; [apply dev_bind_same|]. unfold dev_bind. destruct (find_res _ _) as [d|] eqn:Ef; [|res_tac]. destruct (find_mem _ _); [|res_tac]. destruct (dev_fault _ _ _) as ((f1 & fi) & code).
+  destruct (negb (code =? 0)); [res_tac|]. cbn. split; [cbn; lia|]. cbn. intros r' H. left.
+  destruct (replace_res_in _ _ _ H) as [H'| ->]; [exists r'; auto|]. exists d. split; [eapply find_res_in'; eauto|reflexivity].
 Qed.
 Lemma dev_create_res_MS m image kind req : MS m (fst (fst (dev_create_res m image kind req))).
 Proof.
@@ -645,8 +652,8 @@ Definition ResInv (m : mach) : Prop := Forall (fun r => rs_id r <= m_next_res m)
 
 Lemma res_keep_inv m m' : res_keep m m' -> ResInv m -> ResInv m'.
 Proof.
-  intros (K1 & K2) H. unfold ResInv in *. rewrite Forall_forall in *. intros r' Hr'. destruct (K2 r' Hr') as [(r & Hr & E)|Hle]; [|exact Hle].
-  specialize (H r Hr). lia.
+  intros (K1 & K2) H. unfold ResInv in *. rewrite Forall_forall in *. intros r' Hr'. destruct (K2 r' Hr') as [(r & Hr & E)|Hle]; [|lia].
+  specialize (H r Hr). assert (rs_id r = rs_id r') by (unfold res_key in E; congruence). lia.
 Qed.
 
 Theorem reachA_res_inv v : reachA c v -> ResInv (v_m v).
